@@ -25,8 +25,72 @@ fn parse_total(s: &str) -> Result<(), String> {
   }
 }
 
+/// days since 1970-01-01 of a proleptic Gregorian civil date (Howard Hinnant's algorithm), written independently of `time`
+fn days_from_civil(y: i64, m: i64, d: i64) -> i64 {
+  let y = if m <= 2 { y - 1 } else { y };
+  let era = if y >= 0 { y } else { y - 399 } / 400;
+  let yoe = y - era * 400;
+  let doy = (153 * (if m > 2 { m - 3 } else { m + 9 }) + 2) / 5 + d - 1;
+  let doe = yoe * 365 + yoe / 4 - yoe / 100 + doy;
+  era * 146097 + doe - 719468
+}
+fn days_in_month(y: i64, m: i64) -> i64 { match m { 1 | 3 | 5 | 7 | 8 | 10 | 12 => 31, 4 | 6 | 9 | 11 => 30, _ => if (y % 4 == 0 && y % 100 != 0) || y % 400 == 0 { 29 } else { 28 } } }
+/// C13 as a BOUNDED grid: date-times at and around the ends of the range and the calendar's edges x offsets x fractions;
+/// an accepted string denotes exactly the instant the reference computes (truncated to the second), lies in 0000..9999,
+/// and round-trips through formatting and unix seconds; a string that does not denote a valid date-time is refused
+fn rfc3339_grid() -> Result<(), String> {
+  let years = [0i64, 1, 4, 1900, 1970, 2000, 2024, 9999];
+  let months = [0i64, 1, 2, 12, 13];
+  let days = [0i64, 1, 28, 29, 30, 31, 32];
+  let times = [(0i64, 0i64, 0i64), (23, 59, 59), (12, 30, 15), (24, 0, 0), (23, 60, 0), (23, 59, 60), (0, 0, 1)];
+  let fractions = ["", ".0", ".5", ".999999999", ".123456789012", "."];
+  let offsets: [(&str, Option<i64>); 12] = [("Z", Some(0)), ("z", Some(0)), ("+00:00", Some(0)), ("-00:00", Some(0)), ("+00:01", Some(60)), ("-00:01", Some(-60)),
+    ("+23:59", Some(86340)), ("-23:59", Some(-86340)), ("+24:00", None), ("+01", None), ("", None), ("+01:60", None)];
+  let mut n = 0u32;
+  for &y in &years { for &mo in &months { for &d in &days { for &(h, mi, sec) in &times { for fr in fractions { for (off, off_s) in offsets {
+    let text = format!("{y:04}-{mo:02}-{d:02}T{h:02}:{mi:02}:{sec:02}{fr}{off}");
+    n += 1;
+    let valid_date = (1..=12).contains(&mo) && d >= 1 && d <= days_in_month(y, mo.clamp(1, 12));
+    // `time` takes no leap second except 23:59:60 handling; the property speaks of the instant denoted: treat :60 as outside the grammar accepted
+    let leap = sec == 60 && mi == 59;   // RFC 3339 admits a leap second; `time` takes it in some positions and reads it as :59
+    let valid_time = h <= 23 && mi <= 59 && sec <= 59;
+    let valid = valid_date && valid_time && fr != "." && off_s.is_some();
+    let got = catch_unwind(|| Timestamp::parse(&text)).map_err(|_| format!("parse({text}) PANICS"))?;
+    if leap {
+      if let Ok(t) = got {
+        let base = days_from_civil(y, mo, d) * 86400 + h * 3600 + mi * 60 + 59 - off_s.unwrap_or(0);
+        if !valid_date || h > 23 || off_s.is_none() || fr == "." { return Err(format!("parse({text}) accepted")); }
+        if t.to_unix() != base && t.to_unix() != base + 1 { return Err(format!("parse({text}) = unix {}, expected {base} or {}", t.to_unix(), base + 1)); }
+        if !(MIN..=MAX).contains(&t.to_unix()) { return Err(format!("parse({text}) accepted outside 0000..9999")); }
+      }
+      continue;
+    }
+    match got {
+      Err(_) => {
+        // refusing a valid string is allowed only when the denoted instant leaves 0000..9999
+        if valid {
+          let unix = days_from_civil(y, mo, d) * 86400 + h * 3600 + mi * 60 + sec - off_s.unwrap();
+          if (MIN..=MAX).contains(&unix) { return Err(format!("parse({text}) refused although it denotes unix {unix} inside the range")); }
+        }
+      }
+      Ok(t) => {
+        if !valid { return Err(format!("parse({text}) accepted although it is not a valid RFC 3339 date-time in the accepted profile")); }
+        let unix = days_from_civil(y, mo, d) * 86400 + h * 3600 + mi * 60 + sec - off_s.unwrap();
+        if t.to_unix() != unix { return Err(format!("parse({text}) = unix {}, the string denotes {unix}", t.to_unix())); }
+        if !(MIN..=MAX).contains(&unix) { return Err(format!("parse({text}) accepted outside 0000..9999")); }
+        let f = t.to_rfc3339();
+        if Timestamp::parse(&f).ok() != Some(t) || Timestamp::from_unix(unix).ok() != Some(t) { return Err(format!("round trip of {text} through {f} / unix {unix}")); }
+        if !f.ends_with('Z') || f.contains('.') { return Err(format!("{text} formats as {f}")); }
+      }
+    }
+  } } } } } }
+  if n < 100_000 { return Err(format!("only {n} strings")); }
+  Ok(())
+}
+
 fn main() {
   std::panic::set_hook(Box::new(|_| {}));
+  w("ts_rfc3339_grid_against_reference", rfc3339_grid);
   w("ts_parse_year0_positive_offset", || parse_total("0000-01-01T00:00:00+00:01"));
   w("ts_parse_year9999_negative_offset", || parse_total("9999-12-31T23:59:59-00:01"));
   w("ts_parse_boundaries", || { for s in ["0000-01-01T00:00:00Z", "9999-12-31T23:59:59Z", "9999-12-31T23:59:59.999999999Z", "0000-01-01T23:59:00+23:59", "9999-12-31T00:00:00-23:59", "2020-02-29T12:00:00.5+05:30"] { parse_total(s)?; } Ok(()) });
